@@ -752,17 +752,24 @@ func (q *Queue) storeNewMessage(meta *QueueMetadata, header textproto.Header, bo
 		return nil, err
 	}
 
-	if err := q.updateMetadataOnDisk(meta); err != nil {
+	// The header and the body have to be durable before the meta-data is:
+	// the .meta file is what makes readDiskQueue pick the message up after
+	// a restart.
+	if err := headerFile.Sync(); err != nil {
 		q.tryRemoveDanglingFile(id + ".body")
 		q.tryRemoveDanglingFile(id + ".header")
 		return nil, err
 	}
 
-	if err := headerFile.Sync(); err != nil {
+	if err := bodyFile.Sync(); err != nil {
+		q.tryRemoveDanglingFile(id + ".body")
+		q.tryRemoveDanglingFile(id + ".header")
 		return nil, err
 	}
 
-	if err := bodyFile.Sync(); err != nil {
+	if err := q.updateMetadataOnDisk(meta); err != nil {
+		q.tryRemoveDanglingFile(id + ".body")
+		q.tryRemoveDanglingFile(id + ".header")
 		return nil, err
 	}
 
